@@ -12,50 +12,7 @@ open Codec
 def built (inp : Input) (D : Grid) : Table Rat :=
   { obs := inp.obs, samp := inp.samp, rows := D, omd := mdOut inp.omd, smd := mdOut inp.smd }
 
-/-! ### looking a produced table up through its IDs -/
-
-theorem lookupBy_getD {β : Type} (ids : List Id) (xs : List β) (i : Nat) (hn : ids.Nodup) (hi : i < ids.length) :
-    lookupBy ids xs (ids.getD i "") = xs[i]? := by
-  induction ids generalizing xs i with
-  | nil => simp at hi
-  | cons a as ih =>
-    rw [List.nodup_cons] at hn
-    cases i with
-    | zero =>
-      cases xs with
-      | nil => simp [lookupBy]
-      | cons x xs' => simp [lookupBy]
-    | succ i' =>
-      have hi' : i' < as.length := by simpa using hi
-      have hmem : as.getD i' "" ∈ as := by
-        rw [List.getD_eq_getElem?_getD, List.getElem?_eq_getElem hi']; exact List.getElem_mem hi'
-      have hne : a ≠ as.getD i' "" := fun e => hn.1 (e ▸ hmem)
-      cases xs with
-      | nil => simp [lookupBy]
-      | cons x xs' =>
-        simp only [List.getD_cons_succ, lookupBy, hne, if_false, List.getElem?_cons_succ]
-        exact ih xs' i' hn.2 hi'
-
-theorem cell_of_grid (t : Table Rat) (D : Grid) (n m : Nat) (hD : gridIs D n m = true) (hrows : t.rows = D)
-    (hno : t.obs.Nodup) (hns : t.samp.Nodup) (hlo : t.obs.length = n) (hls : t.samp.length = m)
-    (i j : Nat) (hi : i < n) (hj : j < m) :
-    t.cell? (t.obs.getD i "") (t.samp.getD j "") = some (cellD D i j) := by
-  have hl := (gridIs_iff D n m).mp hD
-  have hiD : i < D.length := by omega
-  have hrow : (D[i]).length = m := hl.2 _ (List.getElem_mem hiD)
-  have hjr : j < (D[i]).length := by omega
-  simp only [Table.cell?, Table.row?, hrows]
-  rw [lookupBy_getD t.obs D i hno (by omega), List.getElem?_eq_getElem hiD]
-  simp only [Option.bind_some]
-  rw [lookupBy_getD t.samp (D[i]) j hns (by omega), List.getElem?_eq_getElem hjr]
-  simp [cellD, List.getD_eq_getElem?_getD, hiD, hjr]
-
 /-! ### accepted forms agree -/
-
-theorem encodes_dims (d : Data) (dense : Bool) (D : Grid) (n m : Nat) (h : encodes d dense D n m = true) :
-    gridIs D n m = true ∧ 1 ≤ n ∧ 1 ≤ m := by
-  simp only [encodes, Bool.and_eq_true, decide_eq_true_eq] at h
-  exact ⟨h.1.1.1, h.1.1.2, h.1.2⟩
 
 /-- **forms_agree.** For every grid `D` (any shape n, m ≥ 1), every value that describes `D` in one
 of the accepted forms — whatever the form, however often a coordinate is repeated (the values add
@@ -189,33 +146,6 @@ theorem reject_md (inp : Input) (D : Grid) (n m : Nat)
 
 /-! ### the predicate holds of the model -/
 
-theorem isErr_tableException : isErr (.error .tableException) .tableException = true := by decide
-
-theorem chk_true (c : String) : chk c true = none := rfl
-
-theorem mdOut_length (md : Option (List MdEntry)) (ids : List Id) (h : mdBad md ids = false) :
-    ∀ l, mdOut md = some l → l.length = ids.length := by
-  intro l hl
-  cases md with
-  | none => simp [mdOut] at hl
-  | some e =>
-    simp only [mdBad, Bool.or_eq_false_iff, bne_eq_false_iff_eq] at h
-    simp only [mdOut] at hl
-    split at hl
-    · cases hl
-    · cases hl; simp [h.1]
-
-theorem mdOf_spec (ids : List Id) (md : Option (List MdEntry)) (hn : ids.Nodup) (i : Nat) (hi : i < ids.length) :
-    (mdOut md).bind (fun l => lookupBy ids l (ids.getD i "")) = mdWant md i := by
-  cases md with
-  | none => rfl
-  | some l =>
-    simp only [mdOut, mdWant]
-    split
-    · rfl
-    · simp only [Option.bind_some]
-      rw [lookupBy_getD ids _ i hn hi]; simp
-
 /-- **model_holds.** The constructor part of the property is true of the model on every input whose
 data is an accepted encoding of a grid: rejection with the table error in each malformed case,
 the grid, IDs and metadata looked up through the IDs otherwise. -/
@@ -300,25 +230,6 @@ def adjGrid (recs : List (String × String × Rat)) : Grid :=
 
 def adjTable (recs : List (String × String × Rat)) : Table Rat :=
   { obs := sortDedup (recs.map (·.1)), samp := sortDedup (recs.map (·.2.1)), rows := adjGrid recs }
-
-theorem maxL_idxOf (ids : List String) (xs : List String) (hs : ids.Pairwise (· < ·)) (hne : ids ≠ [])
-    (hsub : ∀ x ∈ xs, x ∈ ids) (hsup : ∀ y ∈ ids, y ∈ xs) :
-    maxL (xs.map (fun x => ids.idxOf x)) + 1 = ids.length := by
-  have hlen : 0 < ids.length := by
-    cases ids with
-    | nil => exact absurd rfl hne
-    | cons _ _ => simp
-  have : maxL (xs.map (fun x => ids.idxOf x)) = ids.length - 1 := by
-    apply maxL_eq
-    · intro k hk
-      rw [List.mem_map] at hk
-      obtain ⟨x, hx, rfl⟩ := hk
-      have := List.idxOf_lt_length_iff.mpr (hsub x hx)
-      omega
-    · obtain ⟨y, hy, hidx⟩ := sorted_last_max ids hs hne
-      rw [List.mem_map]
-      exact ⟨y, hsup y hy, hidx⟩
-  omega
 
 /-- `from_adjacency` on a document with at least one record, all of them well-formed, produces the
 table over the sorted ID sets -/
@@ -513,64 +424,6 @@ theorem fromUc_renames (lines : List (List String)) (fasta : List String) (t t' 
 
 /-! ### the adjacency predicate holds of the model -/
 
-theorem adjRecord_of_valid (l : AdjLine) (h : adjValid l = true) : adjRecord l = .ok (adjRecOf l) := by
-  obtain ⟨fields, num⟩ := l
-  simp only [adjValid, Bool.and_eq_true, beq_iff_eq] at h
-  obtain ⟨hl, hn⟩ := h
-  obtain ⟨v, rfl⟩ := Option.isSome_iff_exists.mp hn
-  match fields, hl with
-  | [o, s, x], _ => simp [adjRecord, adjRecOf]
-
-theorem adjRecord_of_invalid (l : AdjLine) (h : adjValid l = false) : ∃ e, adjRecord l = .error e := by
-  obtain ⟨fields, num⟩ := l
-  match fields, num with
-  | [], _ => exact ⟨_, rfl⟩
-  | [_], _ => exact ⟨_, rfl⟩
-  | [_, _], _ => exact ⟨_, rfl⟩
-  | [_, _, _], none => exact ⟨_, rfl⟩
-  | [_, _, _], some v => simp [adjValid] at h
-  | _ :: _ :: _ :: _ :: _, _ => exact ⟨_, rfl⟩
-
-theorem mapM_adjRecord_ok (body : List AdjLine) (h : body.all adjValid = true) :
-    body.mapM adjRecord = .ok (body.map adjRecOf) := by
-  induction body with
-  | nil => rfl
-  | cons l ls ih =>
-    simp only [List.all_cons, Bool.and_eq_true] at h
-    rw [List.mapM_cons, adjRecord_of_valid l h.1, ih h.2]
-    rfl
-
-theorem mapM_adjRecord_err (body : List AdjLine) (h : body.all adjValid = false) :
-    ∃ e, body.mapM adjRecord = .error e := by
-  induction body with
-  | nil => simp at h
-  | cons l ls ih =>
-    rw [List.mapM_cons]
-    cases hv : adjValid l with
-    | false =>
-      obtain ⟨e, he⟩ := adjRecord_of_invalid l hv
-      exact ⟨e, by rw [he]; rfl⟩
-    | true =>
-      rw [adjRecord_of_valid l hv]
-      simp only [List.all_cons, hv, Bool.true_and] at h
-      obtain ⟨e, he⟩ := ih h
-      exact ⟨e, by rw [he]; rfl⟩
-
-theorem sortedB_of_pairwise (l : List String) (h : l.Pairwise (· < ·)) : sortedB l = true := by
-  induction l with
-  | nil => rfl
-  | cons a as ih =>
-    rw [List.pairwise_cons] at h
-    cases as with
-    | nil => rfl
-    | cons b bs =>
-      simp only [sortedB, Bool.and_eq_true, decide_eq_true_eq]
-      exact ⟨h.1 b (List.mem_cons_self), ih h.2⟩
-
-theorem sameMembers_of_iff (a b : List String) (h : ∀ x, x ∈ a ↔ x ∈ b) : sameMembers a b = true := by
-  simp only [sameMembers, Bool.and_eq_true, List.all_eq_true, List.contains_iff_mem]
-  exact ⟨fun x hx => (h x).mp hx, fun x hx => (h x).mpr hx⟩
-
 theorem adjTable_wfb (recs : List (String × String × Rat)) : (adjTable recs).wfb = true := by
   simp only [Table.wfb, adjTable, adjGrid, tabulate_length, beq_self_eq_true, Bool.true_and, Bool.and_true]
   have := (gridIs_iff _ _ _).mp (gridIs_tabulate (sortDedup (recs.map (·.1))).length
@@ -671,36 +524,6 @@ theorem adj_model_holds (lines : List AdjLine) : holdsAdj lines (fromAdjacency l
 
 /-! ### the uc predicate holds of the model -/
 
-theorem sampleOf_isSome_iff (q : String) : (sampleOf q).isSome = true ↔ '_' ∈ q.toList := by
-  simp only [sampleOf, Option.isSome_map]
-  cases h : beforeLastUnderscore q.toList with
-  | none => simp [(beforeLast_none q.toList).mp h]
-  | some p =>
-    have : ¬ ('_' ∉ q.toList) := fun hn => by rw [(beforeLast_none q.toList).mpr hn] at h; cases h
-    simp only [Option.isSome_some, true_iff]
-    exact Decidable.not_not.mp this
-
-theorem ucStep_err (st : UcState) (r : UcRec) (h1 : isHS r = true) (h2 : sampleOf r.query = none) :
-    ucStep st r = .error .value := by
-  simp [ucStep, h1, h2]
-
-theorem ucFold_err (rs : List UcRec) : ∀ st : UcState,
-    (∃ r ∈ rs, isHS r = true ∧ sampleOf r.query = none) → ∃ e, ucFold st rs = .error e := by
-  induction rs with
-  | nil => intro st h; obtain ⟨r, hr, _⟩ := h; cases hr
-  | cons r rs ih =>
-    intro st h
-    simp only [ucFold]
-    cases hs : ucStep st r with
-    | error e => exact ⟨e, rfl⟩
-    | ok st1 =>
-      obtain ⟨r', hr', h1, h2⟩ := h
-      rcases List.mem_cons.mp hr' with e | hmem
-      · subst e
-        rw [ucStep_err st r' h1 h2] at hs; cases hs
-      · obtain ⟨e, he⟩ := ih st1 ⟨r', hmem, h1, h2⟩
-        exact ⟨e, by simp only [bind, Except.bind, he]⟩
-
 theorem isSampleOf_iff (q s : String) : isSampleOf q s = true ↔ sampleOf q = some s := by
   constructor
   · intro h
@@ -747,90 +570,11 @@ theorem ucCount_some (recs : List UcRec) (o s : String) :
       simp [this]
   rw [e1, e2]
 
-theorem labelsOk_some (recs : List UcRec) : labelsOk (fun x => some x) recs = true := by
-  simp only [labelsOk, Option.isSome_some, List.all_eq_true, Bool.and_eq_true, Bool.or_eq_true,
-    bne_iff_ne, ne_eq, beq_iff_eq]
-  refine ⟨fun _ _ => trivial, ?_⟩
-  intro r1 _ r2 _
-  by_cases h : r1.seed = r2.seed
-  · exact Or.inr h
-  · left; intro e; exact h (Option.some.inj e)
-
 theorem ucTable_wfb (st : UcState) : (ucTable st).wfb = true := by
   simp only [Table.wfb, ucTable, tabulate_length, beq_self_eq_true, Bool.true_and, Bool.and_true]
   have := (gridIs_iff _ _ _).mp (gridIs_tabulate st.obsIds.length st.sampIds.length
     (fun i j => (st.data.lookup (i, j)).getD 0))
   simpa [List.all_eq_true] using this.2
-
-theorem mapM_option_none (f : String → Option String) (l : List String) (h : ∃ x ∈ l, f x = none) :
-    l.mapM f = none := by
-  induction l with
-  | nil => obtain ⟨x, hx, _⟩ := h; cases hx
-  | cons a as ih =>
-    rw [List.mapM_cons]
-    obtain ⟨x, hx, hn⟩ := h
-    cases hfa : f a with
-    | none => rfl
-    | some y =>
-      rcases List.mem_cons.mp hx with e | hmem
-      · subst e; rw [hn] at hfa; cases hfa
-      · rw [ih ⟨x, hmem, hn⟩]; rfl
-
-theorem mapM_option_some (f : String → Option String) (l : List String) (h : ∀ x ∈ l, (f x).isSome = true) :
-    l.mapM f = some (l.map (fun x => (f x).getD "")) := by
-  induction l with
-  | nil => rfl
-  | cons a as ih =>
-    rw [List.mapM_cons, ih (fun x hx => h x (List.mem_cons_of_mem _ hx))]
-    obtain ⟨y, hy⟩ := Option.isSome_iff_exists.mp (h a (List.mem_cons_self))
-    simp [hy]
-
-theorem lookupBy_map_inj {β : Type} (g : String → String) (l : List String) (xs : List β) (a : String)
-    (hinj : ∀ x ∈ l, ∀ y ∈ l, g x = g y → x = y) (ha : a ∈ l) :
-    lookupBy (l.map g) xs (g a) = lookupBy l xs a := by
-  induction l generalizing xs with
-  | nil => cases ha
-  | cons b bs ih =>
-    cases xs with
-    | nil => simp [lookupBy]
-    | cons x xs' =>
-      simp only [List.map_cons, lookupBy]
-      by_cases hb : b = a
-      · subst hb; simp
-      · have hne : ¬ g b = g a := fun e => hb (hinj b (List.mem_cons_self) a ha e)
-        have ha' : a ∈ bs := by
-          rcases List.mem_cons.mp ha with e | e
-          · exact absurd e.symm hb
-          · exact e
-        simp only [hb, hne, if_false]
-        exact ih xs' (fun x hx y hy => hinj x (List.mem_cons_of_mem _ hx) y (List.mem_cons_of_mem _ hy)) ha'
-
-theorem nodup_map_of_inj (g : String → String) (l : List String) (hn : l.Nodup)
-    (hinj : ∀ x ∈ l, ∀ y ∈ l, g x = g y → x = y) : (l.map g).Nodup := by
-  induction l with
-  | nil => exact List.nodup_nil
-  | cons b bs ih =>
-    rw [List.nodup_cons] at hn
-    rw [List.map_cons, List.nodup_cons]
-    refine ⟨?_, ih hn.2 (fun x hx y hy => hinj x (List.mem_cons_of_mem _ hx) y (List.mem_cons_of_mem _ hy))⟩
-    intro hmem
-    rw [List.mem_map] at hmem
-    obtain ⟨c, hc, e⟩ := hmem
-    have := hinj c (List.mem_cons_of_mem _ hc) b (List.mem_cons_self) e
-    exact hn.1 (this ▸ hc)
-
-theorem inj_of_nodup_map (g : String → String) (l : List String) (hn : (l.map g).Nodup) :
-    ∀ x ∈ l, ∀ y ∈ l, g x = g y → x = y := by
-  induction l with
-  | nil => intro x hx; cases hx
-  | cons b bs ih =>
-    rw [List.map_cons, List.nodup_cons] at hn
-    intro x hx y hy e
-    rcases List.mem_cons.mp hx with rfl | hx' <;> rcases List.mem_cons.mp hy with rfl | hy'
-    · rfl
-    · exact absurd (e ▸ List.mem_map_of_mem hy' : g x ∈ bs.map g) hn.1
-    · exact absurd (e ▸ List.mem_map_of_mem hx' : g y ∈ bs.map g) hn.1
-    · exact ih hn.2 x hx' y hy' e
 
 theorem ucTable_cell (st : UcState) (recs : List UcRec) (inv : UcInv st recs) :
     ∀ o ∈ st.obsIds, ∀ s ∈ st.sampIds, (ucTable st).cell? o s = some ((ucCnt recs o s : Nat) : Rat) := by
